@@ -407,7 +407,10 @@ class HelicityAmplitudeBuilder:
             self.__ingredients.parameter_defaults[mass_symbol] = particle.mass
             del kinematic_variables[mass_symbol]
 
-        alignment_symbols = self.config.spin_alignment.define_symbols(self.reaction)
+        # copy, because define_symbols() may return a cached mapping that is modified below
+        alignment_symbols = dict(
+            self.config.spin_alignment.define_symbols(self.reaction)
+        )
         p = create_four_momentum_symbols(self.reaction.transitions[0].topology)
         for angle_symbol, angle_expr in alignment_symbols.items():
             angle_expr = angle_expr.xreplace(kinematic_variables)
